@@ -109,32 +109,32 @@ theorem C20_send_stack (cfg : SendCfg) (inp : SendInput) (cs : List Choice) :
 def demoChoices (steps k : Nat) : List Choice := List.replicate steps { n := k, cap := 1000000, alt := true }
 
 example :   -- declared 100000 > PROBE_MAX, pieces of 3000 bytes: finished, every byte emitted once, nothing left
-    let s := sendRun SendCfg.gen ⟨.declared 100000, 64, 100000⟩ (demoChoices 80 3000)
+    let s := sendRun SendCfg.frozen ⟨.declared 100000, 64, 100000⟩ (demoChoices 80 3000)
     s.pc = .done ∧ s.emitBody = 100000 ∧ s.readTotal = 100000 ∧ s.bufferedBody = 0 ∧ s.heapBytes = 0 := by
   decide +kernel
 
 example :   -- the same run after 20 steps: in the middle of the copy, holding exactly the bound
-    let s := sendRun SendCfg.gen ⟨.declared 100000, 64, 100000⟩ (demoChoices 20 3000)
-    s.pc = .copy ∧ s.heapBytes = 8704 ∧ Ksend SendCfg.gen .streaming 64 = 8704 := by
+    let s := sendRun SendCfg.frozen ⟨.declared 100000, 64, 100000⟩ (demoChoices 20 3000)
+    s.pc = .copy ∧ s.heapBytes = 8704 ∧ Ksend SendCfg.frozen .streaming 64 = 8704 := by
   decide +kernel
 
 example :   -- chunked, 300000 bytes, the reader fills the whole 128 KiB buffer: three chunks
-    let s := sendRun SendCfg.gen ⟨.chunked, 47, 300000⟩ (demoChoices 30 200000)
+    let s := sendRun SendCfg.frozen ⟨.chunked, 47, 300000⟩ (demoChoices 30 200000)
     s.pc = .done ∧ s.emitBody = 300000 ∧ s.emitTotal = 47 + (7 + 131072 + 2) + (7 + 131072 + 2) + (6 + 37856 + 2) + 5 := by
   decide +kernel
 
 example :   -- auto, 300000 bytes in pieces of 1000: probe (8192), then chunked; peak state holds head + prefix + BufWriter
-    let s := sendRun SendCfg.gen ⟨.auto, 47, 300000⟩ (demoChoices 40 1000)
-    s.strat = .auto ∧ s.coll.len = 8192 ∧ s.heapBytes ≤ Ksend SendCfg.gen .auto 47 ∧ 17000 ≤ s.heapBytes := by
+    let s := sendRun SendCfg.frozen ⟨.auto, 47, 300000⟩ (demoChoices 40 1000)
+    s.strat = .auto ∧ s.coll.len = 8192 ∧ s.heapBytes ≤ Ksend SendCfg.frozen .auto 47 ∧ 17000 ≤ s.heapBytes := by
   decide +kernel
 
 example :   -- declared 1024 ≤ PROBE_MAX: the Fast case, body copied behind the head
-    let s := sendRun SendCfg.gen ⟨.declared 1024, 41, 1024⟩ (List.replicate 7 { n := 65536, cap := 1024, alt := true })
-    s.pc = .fastEmit ∧ s.heapBytes = 2089 ∧ s.heapBytes ≤ Ksend SendCfg.gen .fastDeclared 41 := by
+    let s := sendRun SendCfg.frozen ⟨.declared 1024, 41, 1024⟩ (List.replicate 7 { n := 65536, cap := 1024, alt := true })
+    s.pc = .fastEmit ∧ s.heapBytes = 2089 ∧ s.heapBytes ≤ Ksend SendCfg.frozen .fastDeclared 41 := by
   decide +kernel
 
 example :   -- a reader that ends before the declared length: error, bounded all the same
-    let s := sendRun SendCfg.gen ⟨.declared 100000, 64, 5000⟩ (demoChoices 20 3000)
+    let s := sendRun SendCfg.frozen ⟨.declared 100000, 64, 5000⟩ (demoChoices 20 3000)
     s.pc = .failed ∧ s.emitBody = 5000 := by
   decide +kernel
 
@@ -287,57 +287,54 @@ def demoRChoices (steps : Nat) : List RChoice :=
   List.replicate steps { n := 1460, cap := 0, alt := false, req := demoReq }
 
 example : (RecvCfg.gen 8192 64).WF := by decide
-example : ∀ c ∈ demoRChoices 506, c.req.LinesLe (RecvCfg.gen 8192 64).lineMax := by
+example : ∀ c ∈ demoRChoices 506, c.req.LinesLe (RecvCfg.frozen 8192 64).lineMax := by
   intro c hc; rw [List.eq_of_mem_replicate hc]; decide
 
 example :   -- after 506 steps the request has been served completely and the thread waits for the next one
-    let s := recvRun (RecvCfg.gen 8192 64) (demoRChoices 506)
+    let s := recvRun (RecvCfg.frozen 8192 64) (demoRChoices 506)
     s.pc = .idle ∧ s.delivered = 210000 ∧ s.bodyFailed = false ∧ s.reqBuf = ⟨4096, 4096⟩ ∧ s.br.cap = 0 ∧ s.sock = 0 ∧
     s.heapBytes = 4096 := by
   decide +kernel
 
 example :   -- in the middle: REQUEST_BUFFER + BufReader + the handler's buffer are live
-    let s := recvRun (RecvCfg.gen 8192 64) (demoRChoices 300)
-    s.heapBytes = 4096 + 4096 + 8192 ∧ s.heapBytes ≤ Krecv (RecvCfg.gen 8192 64) ∧ 40000 < s.delivered := by
+    let s := recvRun (RecvCfg.frozen 8192 64) (demoRChoices 300)
+    s.heapBytes = 4096 + 4096 + 8192 ∧ s.heapBytes ≤ Krecv (RecvCfg.frozen 8192 64) ∧ 40000 < s.delivered := by
   decide +kernel
 
 /-! ## The numbers -/
 
-/-- the bounds for the constants GENERATED from the source (`Khttp.Gen`): a few tens of KiB of heap, plus the 128 KiB
+/-- the bounds for the constants of the source as of the pinned commit (`Thresholds.frozen`): a few tens of KiB of heap, plus the 128 KiB
     stack array of `write_chunked`; `L` and `callerBuf` are the caller's -/
 theorem C20_constants :
     (∀ headLen ≤ 256,
-      Ksend SendCfg.gen .streaming headLen = 8704 ∧          -- 512 + 8192
-      Ksend SendCfg.gen .chunked headLen = 8722 ∧            -- … + 18
-      Ksend SendCfg.gen .auto headLen ≤ 25618 ∧              -- 512 + 16384 + 8192 + 18 (or 2·(headLen+2048) + 16384)
-      Ksend SendCfg.gen .fastDeclared headLen ≤ 21056) ∧     -- 2·(headLen + 2048) + 2·(8192 + 32)
-    (∀ headLen, KsendAny SendCfg.gen headLen = 2 * headLen + 4096 + 16448 + 8192 + 18) ∧
-    (∀ headLen ≤ Gen.maxResponseHead, KsendAny SendCfg.gen headLen + KsendStack SendCfg.gen ≤ 200 * 1024) ∧
-    KsendStack SendCfg.gen = 131072 ∧
-    KsendBuffered SendCfg.gen = 8192 + 131072 + 8192 ∧
-    (∀ callerBuf L, Krecv (RecvCfg.gen callerBuf L) = 4096 + 4096 + max 8 (2 * L) + callerBuf) ∧
-    Krecv (RecvCfg.gen 8192 64) = 16512 ∧
-    (∀ callerBuf L, reqBufBound (RecvCfg.gen callerBuf L) = Gen.defaultMaxHead) := by
+      Ksend SendCfg.frozen .streaming headLen = 8704 ∧          -- 512 + 8192
+      Ksend SendCfg.frozen .chunked headLen = 8722 ∧            -- … + 18
+      Ksend SendCfg.frozen .auto headLen ≤ 25618 ∧              -- 512 + 16384 + 8192 + 18 (or 2·(headLen+2048) + 16384)
+      Ksend SendCfg.frozen .fastDeclared headLen ≤ 21056) ∧     -- 2·(headLen + 2048) + 2·(8192 + 32)
+    (∀ headLen, KsendAny SendCfg.frozen headLen = 2 * headLen + 4096 + 16448 + 8192 + 18) ∧
+    (∀ headLen ≤ 8196, KsendAny SendCfg.frozen headLen + KsendStack SendCfg.frozen ≤ 200 * 1024) ∧
+    KsendStack SendCfg.frozen = 131072 ∧
+    KsendBuffered SendCfg.frozen = 8192 + 131072 + 8192 ∧
+    (∀ callerBuf L, Krecv (RecvCfg.frozen callerBuf L) = 4096 + 4096 + max 8 (2 * L) + callerBuf) ∧
+    Krecv (RecvCfg.frozen 8192 64) = 16512 ∧
+    (∀ callerBuf L, reqBufBound (RecvCfg.frozen callerBuf L) = 4096) := by
   refine ⟨?_, ?_, ?_, ?_, ?_, ?_, ?_, ?_⟩
   · intro headLen h
-    simp only [Ksend, headCapFast, headCapPlain, collCapB, sizeLineMax, SendCfg.gen, Printer.Thresholds.gen,
-      Gen.probeMax, Gen.inlineCopyMax, Gen.chunkBufSize, Gen.headInitCap]
+    simp only [Ksend, headCapFast, headCapPlain, collCapB, sizeLineMax, SendCfg.frozen, Printer.Thresholds.frozen]
     omega
   · intro headLen
-    simp only [KsendAny, headCapFast, collCapB, sizeLineMax, SendCfg.gen, Printer.Thresholds.gen,
-      Gen.probeMax, Gen.inlineCopyMax, Gen.chunkBufSize, Gen.headInitCap]
+    simp only [KsendAny, headCapFast, collCapB, sizeLineMax, SendCfg.frozen, Printer.Thresholds.frozen]
     omega
   · intro headLen h
-    simp only [KsendAny, KsendStack, headCapFast, collCapB, sizeLineMax, SendCfg.gen, Printer.Thresholds.gen,
-      Gen.probeMax, Gen.inlineCopyMax, Gen.chunkBufSize, Gen.headInitCap, Gen.maxResponseHead] at *
+    simp only [KsendAny, KsendStack, headCapFast, collCapB, sizeLineMax, SendCfg.frozen, Printer.Thresholds.frozen] at *
     omega
   · decide
   · decide
   · intro callerBuf L
-    simp [Krecv, reqBufBound, lineCapB, RecvCfg.gen, Gen.defaultMaxHead, Gen.defaultReqBuf, Gen.bodyBufSize]
+    simp [Krecv, reqBufBound, lineCapB, RecvCfg.frozen]
   · decide
   · intro callerBuf L
-    simp [reqBufBound, RecvCfg.gen, Gen.defaultMaxHead, Gen.defaultReqBuf]
+    simp [reqBufBound, RecvCfg.frozen]
 
 /-- C20 for ARBITRARY thresholds: nothing above depends on the particular values 8192 / 2048 / 131072 / 512 / 128 /
     1024 / 4096, nor on the std constants 8 / 8192 / 32 — not even on their being positive; the only requirements are
